@@ -101,40 +101,66 @@ class Built:
         self.vqa.cost_observable = qutip.Qobj(self.obs, dims=dims)
         self.spec = []      # per block: dict(kind, H=[...], c=..., U=...)
         self.blocks = []
-        for bi, b in enumerate(case["blocks"]):
-            k = b["kind"]
-            s = dict(kind=k, initial=bool(b.get("initial")))
-            if k == "ham":
-                s["H"] = [_herm(b["seed"], nq)]
-                s["c"] = None
-                blk = VQABlock(qutip.Qobj(s["H"][0], dims=dims), initial=s["initial"])
-            elif k == "ph":
-                s["H"] = [_herm(b["seed"] + 101 * t, nq) for t in range(b["m"])]
-                s["c"] = _herm(b["seed"] + 7777, nq) if b.get("const") else None
-                if b["m"] == 0 and s["c"] is None:
-                    s["c"] = _herm(b["seed"] + 7777, nq)
-                ph = ParameterizedHamiltonian(
-                    [qutip.Qobj(h, dims=dims) for h in s["H"]],
-                    qutip.Qobj(s["c"], dims=dims) if s["c"] is not None else None)
-                blk = VQABlock(ph, initial=s["initial"])
-            elif k == "unit":
-                s["U"] = _unitary(b["seed"], nq)
-                blk = VQABlock(qutip.Qobj(s["U"], dims=dims), is_unitary=True, initial=s["initial"])
-            elif k in ("native", "native_arg"):
-                s["gate"] = b["gate"]
-                s["targets"] = list(b["targets"])
-                blk = VQABlock(b["gate"], targets=list(b["targets"]), initial=s["initial"])
-            elif k == "func":
-                s["H"] = [_herm(b["seed"], nq)]
-                s["c"] = None
-                hq = qutip.Qobj(s["H"][0], dims=dims)
-                blk = VQABlock((lambda hq_: (lambda t: (-1j * t * hq_).expm()))(hq), initial=s["initial"])
-            else:
-                raise ValueError(k)
-            self.vqa.add_block(blk)
-            self.blocks.append(blk)
-            self.spec.append(s)
         self._fix = {}
+        for b in case["blocks"]:
+            self._add(b)
+
+    def _add(self, b):
+        import qutip
+        from qutip_qip.vqa import VQABlock, ParameterizedHamiltonian
+        nq = self.nq
+        dims = [[2] * nq, [2] * nq]
+        k = b["kind"]
+        s = dict(kind=k, initial=bool(b.get("initial")))
+        if k == "ham":
+            s["H"] = [_herm(b["seed"], nq)]
+            s["c"] = None
+            blk = VQABlock(qutip.Qobj(s["H"][0], dims=dims), initial=s["initial"])
+        elif k == "ph":
+            s["H"] = [_herm(b["seed"] + 101 * t, nq) for t in range(b["m"])]
+            s["c"] = _herm(b["seed"] + 7777, nq) if b.get("const") else None
+            if b["m"] == 0 and s["c"] is None:
+                s["c"] = _herm(b["seed"] + 7777, nq)
+            ph = ParameterizedHamiltonian(
+                [qutip.Qobj(h, dims=dims) for h in s["H"]],
+                qutip.Qobj(s["c"], dims=dims) if s["c"] is not None else None)
+            blk = VQABlock(ph, initial=s["initial"])
+        elif k == "unit":
+            s["U"] = _unitary(b["seed"], nq)
+            blk = VQABlock(qutip.Qobj(s["U"], dims=dims), is_unitary=True, initial=s["initial"])
+        elif k in ("native", "native_arg"):
+            s["gate"] = b["gate"]
+            s["targets"] = list(b["targets"])
+            blk = VQABlock(b["gate"], targets=list(b["targets"]), initial=s["initial"])
+        elif k == "func":
+            s["H"] = [_herm(b["seed"], nq)]
+            s["c"] = None
+            hq = qutip.Qobj(s["H"][0], dims=dims)
+            blk = VQABlock((lambda hq_: (lambda t: (-1j * t * hq_).expm()))(hq), initial=s["initial"])
+        else:
+            raise ValueError(k)
+        self.vqa.add_block(blk)
+        self.blocks.append(blk)
+        self.spec.append(s)
+
+    # --- mutations of the live object (histories) ---------------------------------------------
+    def mutate(self, mut, new_case):
+        """apply one user-level change to the REAL object and to the harness's own description"""
+        import qutip
+        dims = [[2] * self.nq, [2] * self.nq]
+        op = mut["op"]
+        if op == "obs":
+            self.obs = _herm(mut["obs_seed"], self.nq, scale=1.0 + (mut["obs_seed"] % 3))
+            self.vqa.cost_observable = qutip.Qobj(self.obs, dims=dims)
+        elif op == "add_block":
+            self._add(mut["block"])
+        elif op == "layers":
+            self.vqa.num_layers = int(mut["layers"])
+        elif op == "cost_func":
+            self.vqa.cost_func = (lambda state: 0.123)      # irrelevant in OBSERVABLE mode
+        else:
+            raise ValueError(op)
+        self.case = new_case
 
     # --- own numerics -----------------------------------------------------------------------
     def n_params(self, bi):
@@ -221,6 +247,13 @@ def eval_ex(built, angles, tree):
     return go(tree)
 
 
+def val_call(call, angles):
+    """(id, slice names, t) -> (id, slice values, t)"""
+    if call is None:
+        return None
+    return [call[0], [float(angles[j]) for j in call[1]], call[2]]
+
+
 def find_dU(tree):
     """first EdU node of an entry tree -> (id, args, t)"""
     stack = [tree]
@@ -238,7 +271,9 @@ def find_dU(tree):
 # ------------------------------------------------------------------------------------------------
 @contextlib.contextmanager
 def recording(built, angles, log):
-    """wrap VQABlock.get_unitary_derivative from outside; records (block id, slice names, term)"""
+    """wrap VQABlock.get_unitary_derivative from outside; records (block id, slice VALUES, term).
+    Values, not positions, are recorded so that repeated / zero angles are allowed; for distinct values
+    (the generic stream) equality of values is equality of positions."""
     from qutip_qip.vqa import VQABlock
     orig = VQABlock.get_unitary_derivative
     ids = {id(b): i for i, b in enumerate(built.blocks)}
@@ -249,7 +284,7 @@ def recording(built, angles, log):
     def wrapper(self, angs, *args, **kw):
         term = args[0] if args else kw.get("term_index", 0)
         try:
-            nm = [names.get(float(a), -1) for a in angs]
+            nm = [float(a) for a in angs]
         except Exception:
             nm = None
         log.append([ids.get(id(self), -1), nm, int(term)])
@@ -279,7 +314,7 @@ def run_real(built, case):
         for g in circ.gates:
             if g.name in user:
                 av = g.arg_value
-                rows.append(["U", user[g.name], None if av is None else [names.get(float(a), -1) for a in av]])
+                rows.append(["U", user[g.name], None if av is None else [float(a) for a in av]])
             else:
                 rows.append(["N", g.name, [int(t) for t in g.targets]])
         out["gates"] = rows
@@ -490,7 +525,7 @@ def compare(built, case, real, mval):
     for (isuser, bid, arg) in m_rows:
         if isuser:
             a = opt(arg)
-            rows.append(["U", bid, None if a is None else list(a)])
+            rows.append(["U", bid, None if a is None else [float(angles[j]) for j in a]])
         else:
             s = built.spec[bid]
             rows.append(["N", s.get("gate"), s.get("targets")])
@@ -508,7 +543,7 @@ def compare(built, case, real, mval):
     if (mj is None) != isinstance(real["jac"], str):
         diffs.append(("compute_jac accepted/rejected", real["jac"], "rejected" if mj is None else "%d entries" % len(mj)))
     elif mj is not None:
-        calls = [find_dU(e) for e in mj]
+        calls = [val_call(find_dU(e), angles) for e in mj]
         if calls != real["dcalls"]:
             diffs.append(("get_unitary_derivative calls (block, slice, term)", real["dcalls"], calls))
         vals = [eval_ex(built, angles, e) for e in mj]
@@ -525,7 +560,7 @@ def compare(built, case, real, mval):
         ov = [eval_ex(built, angles, e) for e in mo]
         info["matches_orig"] = (len(ov) == len(real["jac"]) and
                                 all(abs(a - b) <= 1e-9 * max(1.0, abs(b)) for a, b in zip(real["jac"], ov)) and
-                                [find_dU(e) for e in mo] == real["dcalls"])
+                                [val_call(find_dU(e), angles) for e in mo] == real["dcalls"])
     return diffs, info
 
 
@@ -567,6 +602,51 @@ def gen_angles(rng, n):
         if a not in seen and abs(a) > 1e-3:
             seen.add(a)
             out.append(a)
+    return out
+
+
+def gen_boundary_angles(rng, n):
+    """legal boundary values: exact zeros, -0.0, multiples of pi/2, +-2pi, repeated entries, generic"""
+    vals = []
+    for _ in range(n):
+        r = rng.random()
+        if r < 0.30:
+            v = 0.0
+        elif r < 0.45:
+            v = rng.choice([-4, -3, -2, -1, 1, 2, 3, 4]) * math.pi / 2
+        elif r < 0.60 and vals:
+            v = rng.choice(vals)
+        elif r < 0.64:
+            v = -0.0
+        else:
+            v = round(rng.uniform(-2 * math.pi, 2 * math.pi), 6)
+        vals.append(v)
+    return vals
+
+
+def gen_boundary_case(rng):
+    case = gen_case(rng, kinds=("ham", "ham", "ham", "ph", "ph", "unit", "native"), maxblocks=4, max_free=9)
+    case["angles"] = gen_boundary_angles(rng, len(case["angles"]))
+    return case
+
+
+def zero_sweep(rng, nstruct):
+    """for a few structures: an exact 0.0 at EVERY single parameter position in turn, and all zeros"""
+    out = []
+    for _ in range(nstruct):
+        case = gen_case(rng, kinds=("ham", "ham", "ham", "ph", "unit", "native"), maxblocks=3, max_free=6)
+        n = len(case["angles"])
+        if n == 0:
+            continue
+        if rng.random() < 0.7:
+            case["idxs"] = None
+        for j in range(n):
+            c = json.loads(json.dumps(case))
+            c["angles"][j] = 0.0
+            out.append(c)
+        c = json.loads(json.dumps(case))
+        c["angles"] = [0.0] * n
+        out.append(c)
     return out
 
 
@@ -653,7 +733,8 @@ def corpus_cases():
 
 def structure_key(case):
     return json.dumps([case["nq"], case["layers"], [(b["kind"], b.get("m"), bool(b.get("initial")), b.get("gate")) for b in case["blocks"]],
-                       case.get("idxs"), len(case["angles"])])
+                       case.get("idxs"), len(case["angles"]), [a == 0 for a in case["angles"]],
+                       len(set(case["angles"])) < len(case["angles"])])
 
 
 # ------------------------------------------------------------------------------------------------
@@ -662,28 +743,22 @@ def structure_key(case):
 # The model has no state: its answer for a call depends only on the block structure and on the CURRENT
 # parameter values.  So every call of a history is compared against the same expression trees evaluated at
 # the values the array holds at that moment, and against finite differences taken on a FRESH VQA object.
-def gen_history(rng):
-    r = rng.random()
-    case = gen_case(rng, kinds=("ham", "ph", "ph", "ph", "unit", "native"), maxblocks=3,
-                    max_nq=2, max_layers=(1 if r < 0.6 else 2), max_free=7)
-    while count_free(case) == 0:
-        case = gen_case(rng, kinds=("ham", "ph", "ph", "ph", "unit", "native"), maxblocks=3,
-                        max_nq=2, max_layers=(1 if r < 0.6 else 2), max_free=7)
-    n = count_free(case)
-    case["as_array"] = True
-    if rng.random() < 0.75:
-        case["idxs"] = None
-    arrays = [list(case["angles"]), gen_angles(rng, n)]
+def gen_ops(rng, n, first_angles=None):
+    """(arrays, history) for n parameters: calls on one/two numpy arrays with in-place updates in between"""
+    def newvals():
+        return gen_boundary_angles(rng, n) if rng.random() < 0.35 else gen_angles(rng, n)
+
+    arrays = [list(first_angles) if first_angles is not None else newvals(), newvals()]
     hist = [dict(op="jac", arr=0)]
-    for _ in range(rng.randint(2, 5)):
+    for _ in range(rng.randint(1, 4)):
         a = 0 if rng.random() < 0.75 else 1
         k = rng.random()
         if k < 0.25:
             hist.append(dict(op="sub", arr=a, step=[round(rng.uniform(-0.6, 0.6), 6) for _ in range(n)]))
         elif k < 0.40:
-            hist.append(dict(op="set", arr=a, values=gen_angles(rng, n)))
+            hist.append(dict(op="set", arr=a, values=newvals()))
         elif k < 0.50:
-            hist.append(dict(op="scale", arr=a, c=rng.choice([0.5, 0.75, 1.25, -1.0])))
+            hist.append(dict(op="scale", arr=a, c=rng.choice([0.5, 0.75, 1.25, -1.0, 0.0])))
         elif k < 0.62:
             hist.append(dict(op="cost", arr=a))
         else:
@@ -691,13 +766,84 @@ def gen_history(rng):
     # always end with: in-place step on array 0, then the gradient again on the same array
     hist.append(dict(op=rng.choice(["sub", "sub", "set", "scale"]), arr=0,
                      step=[round(rng.uniform(-0.6, 0.6), 6) for _ in range(n)],
-                     values=gen_angles(rng, n), c=rng.choice([0.5, 1.25, -1.0])))
+                     values=newvals(), c=rng.choice([0.5, 1.25, -1.0])))
     if rng.random() < 0.4:
         hist.append(dict(op="cost", arr=0))
     hist.append(dict(op="jac", arr=0))
-    case["arrays"] = arrays
-    case["history"] = hist
+    return arrays, hist
+
+
+HIST_KINDS = ("ham", "ham", "ph", "ph", "ph", "unit", "native")
+
+
+def gen_history(rng):
+    r = rng.random()
+    while True:
+        case = gen_case(rng, kinds=HIST_KINDS, maxblocks=3, max_nq=2, max_layers=(1 if r < 0.6 else 2), max_free=7)
+        if count_free(case) > 0:
+            break
+    case["as_array"] = True
+    if rng.random() < 0.75:
+        case["idxs"] = None
+    case["arrays"], case["history"] = gen_ops(rng, count_free(case), case["angles"])
     return case
+
+
+def gen_staged_history(rng):
+    """one VQA object whose cost_observable / cost_func / blocks / num_layers are changed between calls"""
+    while True:
+        case = gen_case(rng, kinds=HIST_KINDS, maxblocks=3, max_nq=2, max_layers=2, max_free=6)
+        if count_free(case) > 0:
+            break
+    case["as_array"] = True
+    cur = json.loads(json.dumps({k: case[k] for k in ("nq", "layers", "obs_seed", "blocks")}))
+    stages = []
+    for k in range(rng.randint(2, 3)):
+        mut = None
+        if k > 0:
+            r = rng.random()
+            if r < 0.5:
+                mut = dict(op="obs", obs_seed=rng.randrange(1, 10 ** 6))
+                cur["obs_seed"] = mut["obs_seed"]
+            elif r < 0.7:
+                mut = dict(op="add_block", block=gen_block(rng, cur["nq"], HIST_KINDS))
+                cur["blocks"] = cur["blocks"] + [mut["block"]]
+            elif r < 0.9:
+                mut = dict(op="layers", layers=rng.choice([x for x in (1, 2, 3) if x != cur["layers"]]))
+                cur["layers"] = mut["layers"]
+            else:
+                mut = dict(op="cost_func")
+        n = count_free(cur)
+        if n == 0 or n > 9:
+            break
+        arrays, hist = gen_ops(rng, n)
+        idxs = None if rng.random() < 0.7 else sorted(rng.sample(range(n), rng.randint(0, n)))
+        stages.append(dict(mut=mut, arrays=arrays, history=hist, idxs=idxs))
+    case["stages"] = stages
+    case["angles"] = stages[0]["arrays"][0]
+    case["idxs"] = stages[0]["idxs"]
+    return case
+
+
+def stage_cases(case):
+    """[(mutation or None, effective plain case of that stage)]"""
+    if "stages" not in case:
+        return [(None, case)]
+    cur = json.loads(json.dumps({k: case[k] for k in ("nq", "layers", "obs_seed", "blocks")}))
+    out = []
+    for st in case["stages"]:
+        mut = st.get("mut")
+        if mut:
+            if mut["op"] == "obs":
+                cur["obs_seed"] = mut["obs_seed"]
+            elif mut["op"] == "add_block":
+                cur["blocks"] = cur["blocks"] + [mut["block"]]
+            elif mut["op"] == "layers":
+                cur["layers"] = mut["layers"]
+        c = json.loads(json.dumps(cur))
+        c.update(as_array=True, arrays=st["arrays"], history=st["history"], angles=st["arrays"][0], idxs=st.get("idxs"))
+        out.append((mut, c))
+    return out
 
 
 def run_history(built, case):
@@ -736,46 +882,57 @@ def run_history(built, case):
     return calls
 
 
-def check_history(case, mval=None):
-    """-> (list of (what, impl, model) model/impl differences, oracle failure dict or None)"""
-    built = Built(case)
-    calls = run_history(built, case)
-    ref = Built(case)                # history-free reference object for the finite differences
+def check_history(case, mvals=None):
+    """-> (list of (what, impl, model) model/impl differences, oracle failure dict or None).
+    mvals: one model value per stage (or None: oracle only)."""
+    stages = stage_cases(case)
+    built = Built(stages[0][1])
     diffs = []
     fail = None
-    m_eval = m_jac = None
-    if mval is not None:
-        m_eval, m_jac = opt(mval[3]), opt(mval[4])
-    for n, c in enumerate(calls):
-        at = dict(case)
-        at["angles"] = c["values"]
-        if c["op"] == "cost":
-            want = float(np.real(ref.vqa.evaluate_parameters(list(c["values"]))))
-            if isinstance(c["result"], str) or abs(c["result"] - want) > 1e-9 * max(1.0, abs(want)):
-                if fail is None:
-                    fail = dict(observed=dict(call=n, cost=c["result"], values=c["values"]), expected=want,
-                                what="history: evaluate_parameters depends on earlier calls / in-place updates of the parameter array")
-            if m_eval is not None and not isinstance(c["result"], str):
-                mv = eval_ex(built, c["values"], m_eval)
-                if abs(mv - c["result"]) > 1e-9 * max(1.0, abs(mv)):
-                    diffs.append(("history: cost value at the current parameters (call %d)" % n, c["result"], mv))
-            continue
-        real = dict(cost=0.0, jac=c["result"], dcalls=c["dcalls"])
-        f = oracle(ref, at, real)
-        if f is not None and fail is None:
-            fail = dict(observed=dict(call=n, values=c["values"], **f["observed"]) if isinstance(f["observed"], dict)
-                        else dict(call=n, values=c["values"], result=f["observed"]),
-                        expected=f["expected"],
-                        what="history: " + f["what"] + (" (first call of the history)" if n == 0 else
-                                                       " after earlier calls / in-place updates of the parameter array"))
-        if m_jac is not None and not isinstance(c["result"], str):
-            vals = [eval_ex(built, c["values"], e) for e in m_jac]
-            if len(vals) != len(c["result"]) or any(abs(a - b) > 1e-9 * max(1.0, abs(b)) for a, b in zip(c["result"], vals)):
-                diffs.append(("history: gradient at the current parameters (call %d)" % n, c["result"], vals))
-            if c["distinct"] and [find_dU(e) for e in m_jac] != c["dcalls"]:
-                diffs.append(("history: get_unitary_derivative calls (call %d)" % n, c["dcalls"], [find_dU(e) for e in m_jac]))
-        elif m_jac is None and mval is not None and not isinstance(c["result"], str):
-            diffs.append(("history: compute_jac accepted/rejected (call %d)" % n, "accepted", "rejected"))
+    ncall = 0
+    for k, (mut, sc) in enumerate(stages):
+        if mut:
+            built.mutate(mut, sc)
+        calls = run_history(built, sc)
+        ref = Built(sc)                # history-free reference object for the finite differences
+        m_eval = m_jac = None
+        mval = mvals[k] if mvals is not None else None
+        if mval is not None:
+            m_eval, m_jac = opt(mval[3]), opt(mval[4])
+        after = " after earlier calls / in-place updates of the parameter array" + \
+                (" / reassignment of cost_observable, cost_func, blocks or num_layers" if k > 0 else "")
+        for c in calls:
+            n = ncall
+            ncall += 1
+            at = dict(sc)
+            at["angles"] = c["values"]
+            if c["op"] == "cost":
+                want = float(np.real(ref.vqa.evaluate_parameters(list(c["values"]))))
+                if isinstance(c["result"], str) or abs(c["result"] - want) > 1e-9 * max(1.0, abs(want)):
+                    if fail is None:
+                        fail = dict(observed=dict(call=n, stage=k, cost=c["result"], values=c["values"]), expected=want,
+                                    what="history: evaluate_parameters differs from a fresh object" + after)
+                if m_eval is not None and not isinstance(c["result"], str):
+                    mv = eval_ex(built, c["values"], m_eval)
+                    if abs(mv - c["result"]) > 1e-9 * max(1.0, abs(mv)):
+                        diffs.append(("history: cost value at the current parameters (call %d)" % n, c["result"], mv))
+                continue
+            real = dict(cost=0.0, jac=c["result"], dcalls=c["dcalls"])
+            f = oracle(ref, at, real)
+            if f is not None and fail is None:
+                obs = dict(f["observed"]) if isinstance(f["observed"], dict) else dict(result=f["observed"])
+                obs.update(call=n, stage=k, values=c["values"])
+                fail = dict(observed=obs, expected=f["expected"],
+                            what="history: " + f["what"] + (" (first call of the history)" if n == 0 else after))
+            if m_jac is not None and not isinstance(c["result"], str):
+                vals = [eval_ex(built, c["values"], e) for e in m_jac]
+                if len(vals) != len(c["result"]) or any(abs(x - y) > 1e-9 * max(1.0, abs(y)) for x, y in zip(c["result"], vals)):
+                    diffs.append(("history: gradient at the current parameters (call %d)" % n, c["result"], vals))
+                mc = [val_call(find_dU(e), c["values"]) for e in m_jac]
+                if mc != c["dcalls"]:
+                    diffs.append(("history: get_unitary_derivative calls (call %d)" % n, c["dcalls"], mc))
+            elif m_jac is None and mval is not None and not isinstance(c["result"], str):
+                diffs.append(("history: compute_jac accepted/rejected (call %d)" % n, "accepted", "rejected"))
     return diffs, fail
 
 
@@ -839,7 +996,11 @@ def correspond(ctx):
                      "(several compute_jac / evaluate_parameters calls on one VQA object and one or two numpy arrays "
                      "updated in place in between) is non-trivial. The model is stateless: its answer depends only on "
                      "the block structure and the CURRENT parameter values, never on earlier calls, so every call of a "
-                     "history is compared with the same model expression trees evaluated at the current values")
+                     "history is compared with the same model expression trees evaluated at the current values; staged "
+                     "histories also reassign cost_observable / cost_func, add blocks or change num_layers on the live "
+                     "object between calls (the model is re-evaluated for the new structure, finite differences on a "
+                     "fresh object). Parameter vectors include exact 0.0 at every position, -0.0, multiples of pi/2, "
+                     "+-2pi and repeated values")
     rng = ctx.rng
     cases = []
     for c in corpus_cases():
@@ -851,10 +1012,25 @@ def correspond(ctx):
     if ctx.thorough:
         for c in exhaustive_small():
             cases.append((c, "exhaustive-subsets"))
-    for _ in range(ctx.n(120, 1000)):
+    for _ in range(ctx.n(150, 1200)):
+        cases.append((gen_boundary_case(rng), "boundary-angles"))
+    for c in zero_sweep(rng, ctx.n(12, 80)):
+        cases.append((c, "zero-at-each-position"))
+    for _ in range(ctx.n(100, 800)):
         cases.append((gen_history(rng), "history"))
+    for _ in range(ctx.n(80, 600)):
+        cases.append((gen_staged_history(rng), "history-staged"))
     tag = "%d" % os.getpid()
-    mvals = run_model([c for c, _ in cases], tag)
+    # one model evaluation per plain case / per stage of a history
+    flat = []
+    spans = []
+    for c, _ in cases:
+        scs = [sc for _, sc in stage_cases(c)] if "history" in c or "stages" in c else [c]
+        spans.append((len(flat), len(scs)))
+        flat += scs
+    flat_vals = run_model(flat, tag)
+    mvals = [flat_vals[a:a + n] if ("history" in c or "stages" in c) else flat_vals[a]
+             for (c, _), (a, n) in zip(cases, spans)]
     n_orig = 0
     n_multi = 0
     for (case, kind), mval in zip(cases, mvals):
@@ -864,10 +1040,17 @@ def correspond(ctx):
         corr.tally("layers:%d" % case["layers"])
         corr.tally("qubits:%d" % case["nq"])
         corr.tally("indices:" + ("all" if case.get("idxs") is None else "subset"))
-        if "history" in case:
-            ops = [st["op"] for st in case["history"]]
+        if any(a == 0 for a in case["angles"]):
+            corr.tally("angles:contains exact 0.0")
+        if len(set(case["angles"])) < len(case["angles"]):
+            corr.tally("angles:repeated values")
+        if "history" in case or "stages" in case:
+            ops = [st["op"] for _, sc in stage_cases(case) for st in sc["history"]]
             corr.tally("history:calls", sum(1 for o in ops if o in ("jac", "cost")))
             corr.tally("history:in-place updates", sum(1 for o in ops if o in ("sub", "set", "scale")))
+            for st in case.get("stages", []):
+                if st.get("mut"):
+                    corr.tally("history:mutation:" + st["mut"]["op"])
             try:
                 hd, hf = check_history(case, mval)
             except Exception as e:
@@ -877,7 +1060,8 @@ def correspond(ctx):
                 corr.disagree(case, impl, model, what)
             if hf is not None:
                 corr.oracle_fail(case, hf["observed"], hf["expected"], hf["what"])
-            corr.count(json.dumps([structure_key(case), [(st["op"], st["arr"]) for st in case["history"]]]),
+            corr.count(json.dumps([structure_key(case), [[(st["op"], st["arr"]) for st in sc["history"]]
+                                                         for _, sc in stage_cases(case)]]),
                        nontrivial=True, sample=None)
             continue
         try:
@@ -948,7 +1132,7 @@ def classify(failure):
 
 
 def _fail_of(case):
-    if "history" in case:
+    if "history" in case or "stages" in case:
         return check_history(case, None)[1]
     if "optimize" in case:
         c = {k: v for k, v in case.items() if k != "optimize"}
@@ -974,6 +1158,13 @@ def search(ctx, broken):
         if isinstance(detail, dict) and isinstance(detail.get("input"), dict):
             cands.append(detail["input"])
     rng = ctx.rng
+    # boundary values first: a structural disagreement that needs an exact 0.0 (or a repeated / pi-multiple
+    # angle) at a particular block position, or a change of the live object, must yield a concrete input
+    cands += zero_sweep(rng, ctx.n(15, 60))
+    for _ in range(ctx.n(80, 400)):
+        cands.append(gen_boundary_case(rng))
+    for _ in range(ctx.n(40, 200)):
+        cands.append(gen_staged_history(rng))
     for _ in range(ctx.n(150, 1000)):
         cands.append(gen_case(rng))
         if _ % 3 == 0:
